@@ -449,7 +449,8 @@ def cascade_kwargs(label, o):
         mod["key_mapping"] = m
         real["key_mapping"] = dict(m)
     if o["key"] == "given":
-        real["key"] = mod["key"] = "kk"
+        # two explicit keys that differ only in letter case occur in the same run (a key is case sensitive)
+        real["key"] = mod["key"] = "KK" if o["fallback"] == "custom" else "kk"
     if o["term"] == "given":
         real["term"] = TERM_EX
         mod["term"] = A_TERM_EX
